@@ -88,6 +88,7 @@ struct State {
     std::vector<uint32_t> pct_points;
     uint32_t pct_low = 0;
     int atomic_depth = 0;
+    uint64_t libc_points = 0;
     AccessObserver acc_obs = nullptr;
     const char* acc_lo = nullptr; const char* acc_hi = nullptr;
     SyncObserver sync_obs = nullptr;
@@ -349,6 +350,14 @@ void mem_event(const void* addr, int size, bool is_write) {
     count_fault(F_PREEMPT_MEM);
     schedule(Y_MEM, 0);
 }
+void libc_write_point() {
+    if (!simulating()) return;
+    State& g = *G;
+    if (!g.cfg.libc_point_every) return;
+    if (++g.libc_points % g.cfg.libc_point_every) return;
+    count_fault(F_PREEMPT_MEM);
+    schedule(Y_MEM, 1);
+}
 void atomic_event(const void* addr, int size, int kind) {
     if (!simulating()) return;
     State& g = *G;
@@ -428,7 +437,7 @@ void begin(const Config& cfg, FatalHandler on_fatal) {
     g.tasks.clear(); g.mutexes.clear(); g.conds.clear(); g.ids.clear(); g.trace.clear();
     g.cfg = cfg; g.st = Stats(); g.on_fatal = on_fatal; g.trace_fp = fp;
     g.replay.swap(keep_replay); g.replay_pos = 0;
-    g.seq = 0; g.now = 0; g.acc_obs = nullptr; g.sync_obs = nullptr; g.atomic_depth = 0;
+    g.seq = 0; g.now = 0; g.acc_obs = nullptr; g.sync_obs = nullptr; g.atomic_depth = 0; g.libc_points = 0;
     uint64_t s = cfg.seed ^ 0x5c4ed5c4ed5c4ed5ull;
     g.sched.seed(splitmix64(s));
     Task* t0 = new Task(); t0->id = 0; sem_init(&t0->sem, 0, 0); t0->prio = 1000000; g.tasks.push_back(t0);
@@ -727,6 +736,7 @@ void __sanitizer_cov_store4(uint32_t* a) { mem_event(a, 4, true); }
 void __sanitizer_cov_store8(uint64_t* a) { mem_event(a, 8, true); }
 void __sanitizer_cov_store16(__uint128_t* a) { mem_event(a, 16, true); }
 void sim_atomic_event(const void* a, int size, int kind) { atomic_event(a, size, kind); }
+void sim_libc_write_point(void) { libc_write_point(); }
 int sim_atomic_store(void* a, int size, unsigned long long v, int order) { return atomic_store(a, size, v, order); }
 int sim_atomic_load(const void* a, int size, int order, unsigned long long* out) { uint64_t o = 0; int r = atomic_load(a, size, order, &o); *out = o; return r; }
 
